@@ -115,6 +115,14 @@ pub fn worker(args: &[String]) {
 }
 
 /// parent: drives workers over all cases; writes one record per case for the trace spec:
+/// processor time (user + system, ms) consumed so far by process `pid` (0 if it cannot be read)
+fn cpu_ms(pid: u32) -> u64 {
+    let stat = std::fs::read_to_string(format!("/proc/{}/stat", pid)).unwrap_or_default();
+    let rest = match stat.rfind(')') { Some(p) => &stat[p + 1..], None => return 0 };
+    let f: Vec<&str> = rest.split_whitespace().collect();
+    if f.len() < 13 { return 0; }
+    (f[11].parse::<u64>().unwrap_or(0) + f[12].parse::<u64>().unwrap_or(0)) * 10
+}
 /// {case, label, n (invocations), returns: [kind or "panic"/"hang"/"abort" per invocation]}
 pub fn run(args: &[String]) {
     let cases = ndjson(&args[0]);
@@ -136,7 +144,7 @@ pub fn run(args: &[String]) {
             .stdout(std::process::Stdio::null()).stderr(std::process::Stdio::null()).spawn().expect("spawn worker");
         restarts += 1;
         let mut consumed = 0usize; // bytes of the progress file consumed
-        let mut in_flight: Option<(usize, usize, std::time::Instant)> = None;
+        let mut in_flight: Option<(usize, usize, std::time::Instant, u64)> = None;
         let mut done_to = ci;
         loop {
             let text = std::fs::read(&progress).unwrap_or_default();
@@ -147,7 +155,7 @@ pub fn run(args: &[String]) {
                 advanced = true;
                 let p: Vec<&str> = line.split(' ').collect();
                 match p[0] {
-                    "T" => in_flight = Some((p[1].parse().unwrap(), p[2].parse().unwrap(), std::time::Instant::now())),
+                    "T" => in_flight = Some((p[1].parse().unwrap(), p[2].parse().unwrap(), std::time::Instant::now(), cpu_ms(child.id()))),
                     "R" => { let (i, j): (usize, usize) = (p[1].parse().unwrap(), p[2].parse().unwrap()); results[i][j] = p[3].to_string(); in_flight = None; }
                     "D" => { done_to = p[1].parse::<usize>().unwrap() + 1; }
                     _ => {}
@@ -155,8 +163,12 @@ pub fn run(args: &[String]) {
             }
             if done_to >= cases.len() { let _ = child.wait(); break; }
             let exited = child.try_wait().ok().flatten();
-            if let Some((i, j, t0)) = in_flight {
-                if (exited.is_some() && !advanced) || t0.elapsed().as_millis() as u64 > per_inv_ms {
+            if let Some((i, j, t0, cpu0)) = in_flight {
+                // a hang is declared by the processor time the worker spent inside this one invocation (half the limit), or, for a
+                // blocked worker, by six times the limit of wall time: a loaded machine alone cannot produce either
+                let wall = t0.elapsed().as_millis() as u64;
+                let hung = wall > per_inv_ms && (cpu_ms(child.id()).saturating_sub(cpu0) > per_inv_ms / 2 || wall > 6 * per_inv_ms);
+                if (exited.is_some() && !advanced) || hung {
                     let why = if exited.is_some() { "abort" } else { "hang" };
                     let _ = child.kill();
                     let _ = child.wait();
